@@ -40,7 +40,7 @@ def check(ctx: Ctx) -> str:
     ctx.check("self.code_lineno += self._new_lines" in s and s.index("self.code_lineno += self._new_lines") < s.index("self.debug_info.append("), "writer:lineno-first", "compiler:CodeGenerator.write", "line counter advanced before the entry", "the generated line counter must be advanced by the pending newlines before the entry is recorded", wr.loc())
     ctx.check("self._write_debug_info = None" in s, "writer:consumed", "compiler:CodeGenerator.write", "marker consumed", "a pending marker must be consumed when written", wr.loc())
     nl = repo.func("compiler:CodeGenerator.newline")
-    s = ast.unparse(nl.node)
+    s = nl.ntext  # nested ifs are one conjunction in normal form
     ctx.check("self._new_lines = max(self._new_lines, 1 + extra)" in s and "if node is not None and node.lineno != self._last_line:" in s and "self._write_debug_info = node.lineno" in s and "self._last_line = node.lineno" in s, "newline:marker", "compiler:CodeGenerator.newline", "marker set when the template line changes", "newline(node) must schedule a debug entry whenever the node's line differs from the last recorded one", nl.loc())
     gl = repo.func("environment:Template.get_corresponding_lineno")
     s = ast.unparse(gl.node)
@@ -63,7 +63,9 @@ def check(ctx: Ctx) -> str:
     ctx.rule("R4", "syntax errors default to the line of the current token")
     pf = repo.func("parser:Parser.fail")
     s = ast.unparse(pf.node)
-    ctx.check("if lineno is None:\n        lineno = self.stream.current.lineno" in s and "raise exc(msg, lineno, self.name, self.filename)" in s, "Parser.fail", "parser:Parser.fail", "default line", "Parser.fail must default to the current token's line", pf.loc())
+    dflt = [a for a in ast.walk(pf.nnode) if isinstance(a, ast.Assign) and ast.unparse(a.targets[0]) == "lineno" and ast.unparse(a.value) == "self.stream.current.lineno"]
+    dflt_ok = len(dflt) == 1 and ("lineno is None", True) in astq.guard_atoms(pf.nnode, dflt[0])
+    ctx.check(dflt_ok and "raise exc(msg, lineno, self.name, self.filename)" in s, "Parser.fail", "parser:Parser.fail", "default line", "Parser.fail must default to the current token's line", pf.loc())
     ex = repo.func("lexer:TokenStream.expect")
     ctx.check(ast.unparse(ex.node).count("self.current.lineno") == 2, "TokenStream.expect", "lexer:TokenStream.expect", "error line", "TokenStream.expect must report the current token's line", ex.loc())
     cl = repo.func("lexer:TokenStream.close")
